@@ -42,7 +42,7 @@ DEFAULT_SPEC = {
     "tie_perm": 0,         # permutation seed for record order among equal positions
     "exp_polya": None,     # per-experiment list: 0 = this experiment's reads are polyA-trimmed
     "gene_naming": 0,      # 0: G<n>; 1: zg<n> (lower case, sorts after novel_gene_); 2: si:dkey-<n>
-    "group_naming": 0,     # 0: grp<n>/g<nn>; 1: G<n> (sorts before NA); 2: <n>x (digit first); 3: mixed case; 4: numbers
+    "group_naming": 0,     # 0: grp<n>/g<nn>; 1: G<n> (sorts before NA); 2: <n>x (digit first); 3: mixed case; 4: numbers; 5: blanks at the ends
     "drop_chr_annotation": 0,  # genes of the last k chromosomes are left out of the GTF (reads stay)
     "readthrough": 0,      # k same-strand genes that duplicate another gene's first isoform under a new gene id
     "mirror": 0,           # k antisense genes with exon coordinates identical to another gene's first isoform
@@ -148,7 +148,10 @@ def _shared_exons(g):
 
 
 def group_name(s, k):
-    ng, sch = s["groups"], s.get("group_naming", 0) % 5
+    ng, sch = s["groups"], s.get("group_naming", 0) % 6
+    if sch == 5:
+        # names that str.strip() would change (free-text tag values): trailing blank for even, leading blank for odd groups
+        return ("lib %d " % k) if k % 2 == 0 else (" lib %d" % k)
     if sch == 4:
         return "%d" % (k + 1)         # purely numeric group names (e.g. haplotype tags HP:i:1)
     if sch == 1:
